@@ -1,7 +1,7 @@
 """Exploration plans per property: which harness families / option sets are
 enumerated in the quick and thorough tiers, with which build variant."""
 
-HARNESS_SOURCES = ["engine.c", "ref.c", "qsx.c", "lpfam.c", "h_inst.c", "h_hist.c", "h_basis.c", "h_copy.c", "families.c"]  # keep in sync with harness/families.c
+HARNESS_SOURCES = ["engine.c", "ref.c", "qsx.c", "lpfam.c", "h_inst.c", "h_hist.c", "h_basis.c", "h_copy.c", "h_meta.c", "families.c"]  # keep in sync with harness/families.c
 
 
 def lp(id, variant, fam, cfg="default", weight=1, **kw):
@@ -153,5 +153,22 @@ PLANS["C16"] = {
     "bounds": {"quick": "1 step after the copy (20100 histories); 72576 number-rich LP indices x 7 targets", "thorough": "2 interleaved steps after the copy (1.0M histories)"},
     "evidence": {"states": ["histories", "instances"], "transitions": ["api_transitions", "executions"], "nontrivial": ["histories", "instances_nontrivial"]},
     "assumptions": HIST_ASSUME,
+}
+
+PLANS["C15"] = {
+    "title": "equivalent formulations of an LP receive equivalent answers",
+    "rule": ("state = a formulation reachable from a base LP by composing transformations from a fixed alphabet of 20 (row/column permutations, row scaling by 2, 1/3, -1 with sense flip, "
+             "column scaling, column shifts, objective negation with min/max flip, row duplication, redundant row, equality split); breadth-first to the stated depth; every formulation is solved "
+             "with QSexact_solver and status and back-transformed optimum are compared with the base formulation's (and with the reference truth for the small family). Base LPs: the enumerated small "
+             "family and a deterministic catalogue of 24 structured LPs (transportation, staircase with ranged rows, dense block + singleton rows, set-cover relaxation, potentials with free columns, "
+             "degenerate assignment) x {60,150,300,450} rows (up to 2497 columns). non-trivial = base LP with rows and a finite optimum"),
+    "quick": [fam("meta-S0q1-d1", "prodl1", "meta", {"fam": "S0q1", "depth": 1}, weight=2, crash_props=["C17", "C15"], timeout=900),
+              fam("meta-CAT-d1", "prod", "meta", {"fam": "CAT", "depth": 1}, weight=3, crash_props=["C17", "C15"], timeout=900)],
+    "thorough": [fam("meta-S0q-d2", "prodl1", "meta", {"fam": "S0q", "depth": 2}, weight=10, crash_props=["C17", "C15"], timeout=900),
+                 fam("meta-CAT-d2", "prod", "meta", {"fam": "CAT", "depth": 2}, weight=6, crash_props=["C17", "C15"], timeout=900)],
+    "bounds": {"quick": "depth 1 from every LP of S0q1 and from the 24 catalogue LPs", "thorough": "depth 2 (421 formulations per base LP) from S0q and the catalogue"},
+    "evidence": {"states": ["formulations_compared", "instances"], "transitions": ["executions"], "nontrivial": ["instances_nontrivial"]},
+    "assumptions": ["for the catalogue the claim is the relation over the transformation closure of these 24 problems only; their absolute optimum is not independently known",
+                    "the catalogue is generated by closed formulas (no random numbers)"] + LP_ASSUME,
 }
 NOT_YET = {}
